@@ -236,6 +236,9 @@ func (s *Slice) Encode(sps *SPS, pps *PPS) (*Coded, SliceInfo) {
 					e.Flag(idx("delta_poc_msb_present_flag", i), lt.DeltaPocMsbPresent)
 					if lt.DeltaPocMsbPresent {
 						e.UE(idx("delta_poc_msb_cycle_lt", i), lt.DeltaPocMsbCycleLt)
+					} else {
+						// 7.4.7.1: inferred to be equal to 0 when not present
+						e.Derived(idx("delta_poc_msb_cycle_lt", i), 0)
 					}
 				}
 				e.Derived("len(lt)", int64(len(s.LT)))
